@@ -447,3 +447,37 @@ Example C13_ex_composed_run :
      FObs (OTx 1 [225; 129; 128; 0; 2; 1; 40; 1; 0; 0; 0; 129]); FTxParse 0;
      FObs (OInfo (IEnterSolWait 1))].
 Proof. vm_compute. repeat split. Qed.
+
+(* ---- the IIN masks and the conditions of get_response_iin are the code's (gen/SessionTables.v, regenerated from
+   app/header.rs and outstation/session.rs on every run; interpretation: Outstation/TablesAgree.v) ---------------- *)
+From Dnp3V Require Import gen.SessionTables Outstation.TablesAgree.
+
+(* response_iin of Session.v: every bit of both IIN bytes is the row of get_response_iin (with `Iin | ApplicationIin`
+   inlined) whose condition holds in the state, ORed with the mask of the constant the code names *)
+Theorem C13_tables_response_iin : forall s,
+  let '(s1, (c1, c2, c3, ovf), _) := ask_evinfo s in
+  snd (fst (response_iin s)) = (ta_response_iin (ta_iin_env s1 c1 c2 c3 ovf) 1, ta_response_iin (ta_iin_env s1 c1 c2 c3 ovf) 2).
+Proof. exact tables_response_iin. Qed.
+Print Assumptions C13_tables_response_iin.
+
+Theorem C13_tables_iin_masks_are_bits :
+  tb_iin1_all = map (fun k => 2 ^ k) [0; 1; 2; 3; 4; 5; 6; 7] /\
+  tb_iin2_all = map (fun k => 2 ^ k) [0; 1; 2; 3; 4; 5].
+Proof. exact tables_iin_masks_are_bits. Qed.
+Print Assumptions C13_tables_iin_masks_are_bits.
+
+Theorem C13_tables_iin2_constants :
+  iin2_no_func = tb_iin2_no_func_code_support /\ iin2_param = tb_iin2_parameter_error.
+Proof. exact tables_iin2_constants. Qed.
+Print Assumptions C13_tables_iin2_constants.
+
+(* `impl From<RequestError> for Iin2` through the harness's coding of the application's answers *)
+Theorem C13_tables_req_result_iin2 : forall code, code < 256 -> req_result_iin2 code = ta_req_result_iin2 code.
+Proof. exact tables_req_result_iin2. Qed.
+Print Assumptions C13_tables_req_result_iin2.
+
+Example C13_tables_instances :
+  length tb_response_iin = 10%nat /\
+  ta_response_iin (fun _ => true) 1 = 255 /\ ta_response_iin (fun _ => true) 2 = 40 /\
+  ta_response_iin (fun _ => false) 1 = 0 /\ ta_req_result_iin2 1 = 1 /\ ta_req_result_iin2 7 = 4.
+Proof. vm_compute. repeat split. Qed.
